@@ -38,6 +38,50 @@ __CPROVER_requires(__CPROVER_is_fresh(dest, 64) && __CPROVER_is_fresh(a, sizea *
 __CPROVER_assigns(__CPROVER_object_upto(dest, 64))
 __CPROVER_ensures((k + 1 < sizea + sizeb && sizea != 0 && sizeb != 0) || BITS(dest, GK) == 0) /*@convolution_outside_window_is_exact_zero:C17,C15*/
 ;
+// ---- windowed convolution: which coefficient lands in which block.  The floating-point value of a coefficient is not
+// specified, so "block holds coefficient number c" is carried by ghost state (abstract view of ONE tracked block, the block
+// at GDEST): the 1-coefficient kernel's contract says  view(dest) := k  (that the kernel computes the k-th windowed sum is its
+// own index proof above), the 2-coefficient kernel and the window loop are proved against  view(dest + 8*g) == k0 + g.
+void reim4_convolution_2coeff_ref(uint64_t k, double* dest, const double* a, uint64_t sizea, const double* b, uint64_t sizeb);
+void reim4_convolution_ref(double* dest, uint64_t dest_size, uint64_t dest_offset, const double* a, uint64_t sizea, const double* b, uint64_t sizeb);
+GHOST const double* GDEST;
+GHOST uint64_t GVIEW;
+GHOST uint64_t GC;
+#define IN_WINDOW(c) ((c) + 1 < sizea + sizeb && sizea != 0 && sizeb != 0)
+void conv1_view__c(uint64_t k, double* dest, const double* a, uint64_t sizea, const double* b, uint64_t sizeb)
+__CPROVER_requires(sizea <= MAXROWS && sizeb <= MAXROWS && k <= 4 * MAXROWS && GK < 8)
+__CPROVER_requires(__CPROVER_is_fresh(dest, 64) && __CPROVER_is_fresh(a, sizea * 64) && __CPROVER_is_fresh(b, sizeb * 64))
+__CPROVER_assigns(__CPROVER_object_upto(dest, 64), GVIEW)
+__CPROVER_ensures(IN_WINDOW(k) || BITS(dest, GK) == 0)
+__CPROVER_ensures(dest == GDEST ? GVIEW == k : GVIEW == __CPROVER_old(GVIEW))
+;
+void conv2__c(uint64_t k, double* dest, const double* a, uint64_t sizea, const double* b, uint64_t sizeb)
+__CPROVER_requires(sizea <= MAXROWS && sizeb <= MAXROWS && k < 4 * MAXROWS && GK < 8 && GC < 2)
+__CPROVER_requires(__CPROVER_is_fresh(dest, 128) && __CPROVER_is_fresh(a, sizea * 64) && __CPROVER_is_fresh(b, sizeb * 64))
+__CPROVER_requires(GDEST == dest + 8 * GC)
+__CPROVER_assigns(__CPROVER_object_upto(dest, 128), GVIEW)
+__CPROVER_ensures(GVIEW == k + GC) /*@convolution_2coeff_block_g_holds_coefficient_k_plus_g:C17,C15*/
+__CPROVER_ensures(IN_WINDOW(k + GC) || BITS(dest + 8 * GC, GK) == 0) /*@convolution_2coeff_outside_window_is_exact_zero:C17,C15*/
+;
+// the same contract in the form used at call sites (GDEST anywhere: either tracked block or neither)
+void conv2_view__c(uint64_t k, double* dest, const double* a, uint64_t sizea, const double* b, uint64_t sizeb)
+__CPROVER_requires(sizea <= MAXROWS && sizeb <= MAXROWS && k < 4 * MAXROWS && GK < 8)
+__CPROVER_requires(__CPROVER_is_fresh(dest, 128) && __CPROVER_is_fresh(a, sizea * 64) && __CPROVER_is_fresh(b, sizeb * 64))
+__CPROVER_assigns(__CPROVER_object_upto(dest, 128), GVIEW)
+__CPROVER_ensures(IN_WINDOW(k) || BITS(dest, GK) == 0)
+__CPROVER_ensures(IN_WINDOW(k + 1) || BITS(dest + 8, GK) == 0)
+__CPROVER_ensures(dest == GDEST ? GVIEW == k : dest + 8 == GDEST ? GVIEW == k + 1 : GVIEW == __CPROVER_old(GVIEW))
+;
+void conv__c(double* dest, uint64_t dest_size, uint64_t dest_offset, const double* a, uint64_t sizea, const double* b, uint64_t sizeb)
+__CPROVER_requires(sizea <= MAXROWS && sizeb <= MAXROWS && dest_size <= MAXROWS && dest_offset <= MAXROWS && GK < 8 && GC < dest_size)
+__CPROVER_requires(__CPROVER_is_fresh(dest, dest_size * 64) && __CPROVER_is_fresh(a, sizea * 64) && __CPROVER_is_fresh(b, sizeb * 64))
+__CPROVER_requires(GDEST == dest + 8 * GC)
+__CPROVER_assigns(__CPROVER_object_upto(dest, dest_size * 64), GVIEW)
+__CPROVER_ensures(GVIEW == GC + dest_offset) /*@convolution_window_block_g_holds_coefficient_offset_plus_g:C17,C15*/
+__CPROVER_ensures(IN_WINDOW(GC + dest_offset) || BITS(dest + 8 * GC, GK) == 0) /*@convolution_window_outside_product_is_exact_zero:C17,C15*/
+;
+void h_conv2(void) { uint64_t k, sa, sb; double* d; const double *a, *b; GK = nondet_u64(); GC = nondet_u64(); GVIEW = nondet_u64(); reim4_convolution_2coeff_ref(k, d, a, sa, b, sb); VACUITY_CANARY(); }
+void h_conv(void) { uint64_t n, o, sa, sb; double* d; const double *a, *b; GK = nondet_u64(); GC = nondet_u64(); GVIEW = nondet_u64(); reim4_convolution_ref(d, n, o, a, sa, b, sb); VACUITY_CANARY(); }
 void h_mat1col(void) { uint64_t n; double* d; const double *u, *v; GK = nondet_u64(); reim4_vec_mat1col_product_ref(n, d, u, v); VACUITY_CANARY(); }
 void h_mat2cols(void) { uint64_t n; double* d; const double *u, *v; GK = nondet_u64(); reim4_vec_mat2cols_product_ref(n, d, u, v); VACUITY_CANARY(); }
 void h_conv1(void) { uint64_t k, sa, sb; double* d; const double *a, *b; GK = nondet_u64(); reim4_convolution_1coeff_ref(k, d, a, sa, b, sb); VACUITY_CANARY(); }
